@@ -216,6 +216,10 @@ struct qtmd_stream *qtmd_init(struct mspack_system *system,
     return NULL;
   }
 
+  /* a match may refer to bytes before the start of the stream: make them
+   * defined rather than whatever the allocator handed out */
+  memset(qtm->window, 0, (size_t) window_size);
+
   /* initialise decompression state */
   qtm->sys         = system;
   qtm->input       = input;
